@@ -59,7 +59,7 @@ Proof.
   { destruct rp; [|reflexivity]. destruct (bound_kw ty base false true 0); [|reflexivity].
     apply IH; rewrite skipn_length; cbn [length]; lia. }
   destruct (c =? 124).
-  { destruct (is_nil rp || re); [reflexivity|]. apply IH; lia. }
+  { destruct (is_nil rp || re || (pd =? length rp)%nat); [reflexivity|]. apply IH; lia. }
   destruct (starts_with s_dots (c :: rest)).
   { destruct (is_nil rp || (length rp =? pd)%nat); [reflexivity|].
     pose proof (skip_space_length (skipn 2 (c :: rest))) as Hl. rewrite skipn_length in Hl. cbn [length] in Hl.
@@ -70,10 +70,12 @@ Proof.
       destruct (bound_num ty true false lo (c :: rest)) as [[v len]|] eqn:Hb; [|reflexivity].
       pose proof (bound_num_len_pos _ _ _ _ _ _ _ Hb) as Hlen.
       apply IH; rewrite skipn_length; cbn [length]; lia.
-    - destruct (bound_num ty false (pd =? 0)%nat (prev_max pd rp) (c :: rest)) as [[v len]|] eqn:Hb; [|reflexivity].
+    - destruct (negb (is_nil rp) && negb (length rp =? pd)%nat); [reflexivity|].
+      destruct (bound_num ty false (pd =? 0)%nat (prev_max pd rp) (c :: rest)) as [[v len]|] eqn:Hb; [|reflexivity].
       pose proof (bound_num_len_pos _ _ _ _ _ _ _ Hb) as Hlen.
       apply IH; rewrite skipn_length; cbn [length]; lia. }
   destruct (starts_with s_max (c :: rest)); [|reflexivity].
+  destruct (negb re && negb (is_nil rp) && negb (length rp =? pd)%nat); [reflexivity|].
   destruct (skip_space (skipn 3 (c :: rest))); [|reflexivity].
   destruct re.
   - destruct rp as [|[lo hi0] tl]; [reflexivity|].
@@ -109,7 +111,7 @@ Lemma run_cons ty base rp pd re c rest :
             end
     end
   else if c =? 124 then
-    if is_nil rp || re then Err E_VALID else run ty base rp (S pd) re rest
+    if is_nil rp || re || (pd =? length rp)%nat then Err E_VALID else run ty base rp (S pd) re rest
   else if starts_with s_dots expr then
     if is_nil rp || (length rp =? pd)%nat then Err E_VALID
     else run ty base rp pd true (skip_space (skipn 2 expr))
@@ -123,12 +125,14 @@ Lemma run_cons ty base rp pd re c rest :
           | Ok (v, len) => run ty base ((lo, v) :: tl) pd false (skipn len expr)
           end
       end
+    else if negb (is_nil rp) && negb (length rp =? pd)%nat then Err E_VALID
     else
       match bound_num ty false (pd =? 0)%nat (prev_max pd rp) expr with
       | Err e => Err e
       | Ok (v, len) => run ty base ((v, v) :: rp) pd false (skipn len expr)
       end
   else if starts_with s_max expr then
+    if negb re && negb (is_nil rp) && negb (length rp =? pd)%nat then Err E_VALID else
     match skip_space (skipn 3 expr) with
     | _ :: _ => Err E_VALID
     | [] =>
@@ -155,7 +159,7 @@ Proof.
   { destruct rp; [|reflexivity]. destruct (bound_kw ty base false true 0); [|reflexivity].
     apply loop_run; rewrite skipn_length; cbn [length]; lia. }
   destruct (c =? 124).
-  { destruct (is_nil rp || re); [reflexivity|]. apply loop_run; lia. }
+  { destruct (is_nil rp || re || (pd =? length rp)%nat); [reflexivity|]. apply loop_run; lia. }
   destruct (starts_with s_dots (c :: rest)).
   { destruct (is_nil rp || (length rp =? pd)%nat); [reflexivity|].
     pose proof (skip_space_length (skipn 2 (c :: rest))) as Hl. rewrite skipn_length in Hl. cbn [length] in Hl.
@@ -166,10 +170,12 @@ Proof.
       destruct (bound_num ty true false lo (c :: rest)) as [[v len]|] eqn:Hb; [|reflexivity].
       pose proof (bound_num_len_pos _ _ _ _ _ _ _ Hb) as Hlen.
       apply loop_run; rewrite skipn_length; cbn [length]; lia.
-    - destruct (bound_num ty false (pd =? 0)%nat (prev_max pd rp) (c :: rest)) as [[v len]|] eqn:Hb; [|reflexivity].
+    - destruct (negb (is_nil rp) && negb (length rp =? pd)%nat); [reflexivity|].
+      destruct (bound_num ty false (pd =? 0)%nat (prev_max pd rp) (c :: rest)) as [[v len]|] eqn:Hb; [|reflexivity].
       pose proof (bound_num_len_pos _ _ _ _ _ _ _ Hb) as Hlen.
       apply loop_run; rewrite skipn_length; cbn [length]; lia. }
   destruct (starts_with s_max (c :: rest)); [|reflexivity].
+  destruct (negb re && negb (is_nil rp) && negb (length rp =? pd)%nat); [reflexivity|].
   destruct (skip_space (skipn 3 (c :: rest))); [|reflexivity].
   destruct re.
   - destruct rp as [|[lo hi0] tl]; [reflexivity|].
@@ -193,11 +199,11 @@ Qed.
 
 Lemma orun_bar ty base rp pd re r :
   orun ty base rp pd re (124 :: r) =
-  if is_nil rp || re then None else orun ty base rp (S pd) re r.
+  if is_nil rp || re || (pd =? length rp)%nat then None else orun ty base rp (S pd) re r.
 Proof.
   unfold orun. rewrite run_cons. cbv zeta.
   change (is_space 124) with false. change (starts_with s_min (124 :: r)) with false. change (124 =? 124) with true.
-  cbv iota. destruct (is_nil rp || re); reflexivity.
+  cbv iota. destruct (is_nil rp || re || (pd =? length rp)%nat); reflexivity.
 Qed.
 
 Lemma orun_min ty base rp pd re r :
@@ -227,6 +233,7 @@ Qed.
 (* max: only white space may follow *)
 Lemma orun_max ty base rp pd re r :
   orun ty base rp pd re (s_max ++ r) =
+  if negb re && negb (is_nil rp) && negb (length rp =? pd)%nat then None else
   match skip_space r with
   | _ :: _ => None
   | [] =>
@@ -245,6 +252,7 @@ Proof.
   change (starts_with s_dots (109 :: 97 :: 120 :: r)) with false. cbv iota.
   change (is_digit 109 || (109 =? 45) || (109 =? 43)) with false. cbv iota.
   replace (starts_with [109; 97; 120] (109 :: 97 :: 120 :: r)) with true by (cbn; reflexivity).
+  destruct (negb re && negb (is_nil rp) && negb (length rp =? pd)%nat); [reflexivity|].
   cbn [skipn]. destruct (skip_space r); [|reflexivity].
   unfold bound_kw, asc_ok. destruct re.
   - destruct rp as [|[lo hi0] tl]; [reflexivity|]. cbn [orb]. destruct (lo <=? kw_value ty base true)%Z; reflexivity.
@@ -499,6 +507,7 @@ Lemma orun_num ty base rp pd re l v r :
     | [] => None
     | (lo, _) :: tl => if in_type ty v && (lo <=? v)%Z then orun ty base ((lo, v) :: tl) pd false r else None
     end
+  else if negb (is_nil rp) && negb (length rp =? pd)%nat then None
   else if in_type ty v && ((pd =? 0)%nat || (prev_max pd rp <? v)%Z) then orun ty base ((v, v) :: rp) pd false r
        else None.
 Proof.
@@ -520,7 +529,8 @@ Proof.
     + destruct (in_type ty v && (lo <=? v)%Z); [|discriminate]. inversion Hb; subst.
       rewrite skipn_app_exact. reflexivity.
     + destruct (in_type ty v && (lo <=? v)%Z); [discriminate|reflexivity].
-  - pose proof (bound_num_lex ty l v r false (pd =? 0)%nat (prev_max pd rp) Hlex Hr) as Hb.
+  - destruct (negb (is_nil rp) && negb (length rp =? pd)%nat); [reflexivity|].
+    pose proof (bound_num_lex ty l v r false (pd =? 0)%nat (prev_max pd rp) Hlex Hr) as Hb.
     destruct (bound_num ty false (pd =? 0)%nat (prev_max pd rp) (l ++ r)) as [[w len]|e]; cbn [ropt] in Hb;
       unfold asc_ok in Hb.
     + destruct (in_type ty v && ((pd =? 0)%nat || (prev_max pd rp <? v)%Z)); [|discriminate]. inversion Hb; subst.
@@ -614,10 +624,11 @@ Proof.
   intros Hb Hws HR. destruct Hb as [ | | l v Hl]; cbn [sem_lo].
   - rewrite orun_min. destruct rp; cbn [is_nil]; [|reflexivity]. apply orun_ws. exact Hws.
   - rewrite orun_max, (sep_skip ws R Hws HR). cbv zeta. rewrite prev_max_len, len0_is_nil.
+    rewrite Nat.eqb_refl. cbn [negb andb]. rewrite andb_false_r.
     destruct R as [|c R']; cbn [is_nil andb]; [|reflexivity].
     destruct (is_nil rp || (prev_hi rp <=? kw_value ty base true)%Z); reflexivity.
   - rewrite (orun_num ty base rp (length rp) false l v (ws ++ R) Hl (sep_follow ws R Hws HR)).
-    rewrite prev_max_len, len0_is_nil.
+    rewrite prev_max_len, len0_is_nil. rewrite Nat.eqb_refl. cbn [negb]. rewrite andb_false_r.
     destruct (in_type ty v && (is_nil rp || (prev_hi rp <? v)%Z)); [|reflexivity]. apply orun_ws. exact Hws.
 Qed.
 
@@ -692,7 +703,8 @@ Proof.
     pose proof (parts_text_nonempty ty ps' tps' Hps) as Hne.
     destruct ps' as [|p2 ps'']; [congruence|]. cbn [is_nil].
     destruct (sem_part ty base rp false p) as [d|]; [|reflexivity].
-    rewrite orun_bar. cbn [is_nil orb].
+    rewrite orun_bar. cbn [is_nil orb length].
+    destruct (length rp =? S (length rp))%nat eqn:Hn; [lia|].
     rewrite (orun_ws ty base (d :: rp) (S (length rp)) false ws tps' Hws).
     exact (IH (d :: rp)).
 Qed.
@@ -1117,32 +1129,16 @@ Qed.
    --------------------------------------------------------------------------------------------- *)
 Definition bs (l : list N) : bytes := l.
 
-(* 1 50  (two numbers, no bar) derived from 1..10 is accepted, the second part escapes both the ascending check
-   and the check against the base: the derived type accepts 50 *)
-Lemma juxtaposed_widens :
-  exists r', compile_range (RInt U8) [(1, 10)%Z] (bs [49; 32; 53; 48]) = Ok r' /\
-             in_parts r' 50 /\ ~ in_parts [(1, 10)%Z] 50.
-Proof.
-  exists [(1, 1); (50, 50)]%Z. split; [vm_compute; reflexivity|]. split.
-  - exists 50%Z, 50%Z. split; [right; left; reflexivity|lia].
-  - intros (l & h & [Heq|[]] & Hv). inversion Heq; subst. lia.
-Qed.
-
-(* 5 1  is accepted with the parts in descending order; validate_range then rejects the listed value 1 *)
-Lemma juxtaposed_unsorted :
-  exists r', compile_range (RInt U8) [] (bs [53; 32; 49]) = Ok r' /\ ~ parts_sorted r' /\
-             in_parts r' 1 /\ validate_range r' 1 = false.
-Proof.
-  exists [(5, 5); (1, 1)]%Z. split; [vm_compute; reflexivity|]. split; [cbn [parts_sorted]; lia|]. split.
-  - exists 1%Z, 1%Z. split; [right; left; reflexivity|lia].
-  - reflexivity.
-Qed.
-
-(* 1||  derived from  1..3 | 5 : parts_done = 3 with one part, the check against the base reads parts[1] *)
-Lemma double_bar_overread :
-  compile_range (RInt U8) [(1, 3); (5, 5)]%Z (bs [49; 124; 124]) = Err E_OOB /\
-  compile_range (RInt U8) [] (bs [49; 124; 124]) = Ok [(1, 1)%Z].
-Proof. split; vm_compute; reflexivity. Qed.
+(* regression (fixed by 72878af / b6c3725, formerly witnesses of refuted statements): parts that are not separated by
+   a bar and two bars in a row are rejected, with and without a base restriction *)
+Lemma former_witnesses_rejected :
+  compile_range (RInt U8) [(1, 10)%Z] (bs [49; 32; 53; 48]) = Err E_VALID /\           (* 1 50 under 1..10 *)
+  compile_range (RInt U8) [] (bs [53; 32; 49]) = Err E_VALID /\                        (* 5 1 *)
+  compile_range (RInt U8) [(1, 3); (5, 5)]%Z (bs [49; 124; 124]) = Err E_VALID /\      (* 1|| under 1..3 | 5 *)
+  compile_range (RInt U8) [] (bs [49; 124; 124]) = Err E_VALID /\                      (* 1|| *)
+  compile_range (RInt U8) [] (bs [109; 105; 110; 53]) = Err E_VALID /\                 (* min5 *)
+  compile_range (RInt U8) [] (bs [53; 109; 97; 120]) = Err E_VALID.                    (* 5max *)
+Proof. repeat split; vm_compute; reflexivity. Qed.
 
 (* 1..9..3  is the part 1..3;  127 | max  gives two equal parts;  -  is the decimal64 value 0;
    +5, 05 and (for uint8) -0 are numbers *)
@@ -1291,7 +1287,7 @@ Proof.
       - apply IH. rewrite skipn_length. cbn [length]. lia.
       - intro H; inversion H; subst. exact (bound_kw_err _ _ _ _ _ _ Hk eq_refl). }
     destruct (c =? 124).
-    { destruct (is_nil rp || re); [discriminate|]. apply IH; lia. }
+    { destruct (is_nil rp || re || (pd =? length rp)%nat); [discriminate|]. apply IH; lia. }
     destruct (starts_with s_dots (c :: rest)).
     { destruct (is_nil rp || (length rp =? pd)%nat); [discriminate|].
       pose proof (skip_space_length (skipn 2 (c :: rest))) as Hl. rewrite skipn_length in Hl. cbn [length] in Hl.
@@ -1302,10 +1298,12 @@ Proof.
         destruct (bound_num ty true false lo (c :: rest)) as [[v len]|e1] eqn:Hb.
         + pose proof (bound_num_len_pos _ _ _ _ _ _ _ Hb). apply IH. rewrite skipn_length. cbn [length]. lia.
         + intro H; inversion H; subst. exact (bound_num_err _ _ _ _ _ _ Hb eq_refl).
-      - destruct (bound_num ty false (pd =? 0)%nat (prev_max pd rp) (c :: rest)) as [[v len]|e1] eqn:Hb.
+      - destruct (negb (is_nil rp) && negb (length rp =? pd)%nat); [discriminate|].
+        destruct (bound_num ty false (pd =? 0)%nat (prev_max pd rp) (c :: rest)) as [[v len]|e1] eqn:Hb.
         + pose proof (bound_num_len_pos _ _ _ _ _ _ _ Hb). apply IH. rewrite skipn_length. cbn [length]. lia.
         + intro H; inversion H; subst. exact (bound_num_err _ _ _ _ _ _ Hb eq_refl). }
     destruct (starts_with s_max (c :: rest)); [|discriminate].
+    destruct (negb re && negb (is_nil rp) && negb (length rp =? pd)%nat); [discriminate|].
     destruct (skip_space (skipn 3 (c :: rest))); [|discriminate].
     destruct re.
     + destruct rp as [|[lo hi0] tl]; [discriminate|].
@@ -1361,7 +1359,7 @@ Proof.
       refine (IH _ _ _ _ _ _ _ _ Hbase _ H). constructor; [|constructor].
       specialize (Hkw false). unfold part_ok. cbn [fst snd]. lia. }
     destruct (c =? 124).
-    { destruct (is_nil rp || re); [discriminate|]. exact (IH _ _ _ _ _ _ _ _ Hbase Hrp H). }
+    { destruct (is_nil rp || re || (pd =? length rp)%nat); [discriminate|]. exact (IH _ _ _ _ _ _ _ _ Hbase Hrp H). }
     destruct (starts_with s_dots (c :: rest)).
     { destruct (is_nil rp || (length rp =? pd)%nat); [discriminate|]. exact (IH _ _ _ _ _ _ _ _ Hbase Hrp H). }
     destruct (is_digit c || (c =? 45) || (c =? 43)).
@@ -1374,10 +1372,12 @@ Proof.
         unfold bound_num in Hb. destruct (value_syntax ty (c :: rest)) as [[l0 vc]|]; [|discriminate].
         destruct (parse_bound ty vc) as [w|]; [|discriminate]. cbn [orb] in Hb. unfold asc_ok in Hb.
         destruct (lo <=? w)%Z eqn:Hle; [|discriminate]. inversion Hb; subst. lia.
-      - destruct (bound_num ty false (pd =? 0)%nat (prev_max pd rp) (c :: rest)) as [[v len]|e1] eqn:Hb; [|discriminate].
+      - destruct (negb (is_nil rp) && negb (length rp =? pd)%nat); [discriminate|].
+        destruct (bound_num ty false (pd =? 0)%nat (prev_max pd rp) (c :: rest)) as [[v len]|e1] eqn:Hb; [|discriminate].
         pose proof (bound_num_range _ _ _ _ _ _ _ Hb) as Hv.
         refine (IH _ _ _ _ _ _ _ _ Hbase _ H). constructor; [|exact Hrp]. unfold part_ok. cbn [fst snd]. lia. }
     destruct (starts_with s_max (c :: rest)); [|discriminate].
+    destruct (negb re && negb (is_nil rp) && negb (length rp =? pd)%nat); [discriminate|].
     destruct (skip_space (skipn 3 (c :: rest))); [|discriminate].
     destruct re.
     + destruct rp as [|[lo hi0] tl]; [discriminate|]. unfold bound_kw in H. cbn [orb] in H. unfold asc_ok in H.
@@ -1411,4 +1411,274 @@ Proof.
   destruct base as [|b0 base']; [inversion H; subst; auto|].
   destruct (check_base_rem (firstn pd ps) (b0 :: base')); [|discriminate].
   destruct (pd <=? length ps)%nat; [inversion H; subst; auto|]. destruct (is_nil p); discriminate.
+Qed.
+
+(* ---------------------------------------------------------------------------------------------
+   9. arbitrary texts, after the fixes 72878af / b6c3725: parts_done = number of parts, the parts are in ascending
+      order (the last one may touch: 127 | max), no read beyond the array, no widening, validate_range = membership
+   --------------------------------------------------------------------------------------------- *)
+(* ascending with touching allowed *)
+Fixpoint wsorted (l : parts) : Prop :=
+  match l with
+  | [] => True
+  | (lo, hi) :: l' =>
+      (lo <= hi)%Z /\ match l' with [] => True | (lo2, _) :: _ => (hi <= lo2)%Z end /\ wsorted l'
+  end.
+
+(* the same on the reversed array the loop works on *)
+Fixpoint rsorted (rp : parts) : Prop :=
+  match rp with
+  | [] => True
+  | (lo, hi) :: tl =>
+      (lo <= hi)%Z /\ match tl with [] => True | (_, h') :: _ => (h' <= lo)%Z end /\ rsorted tl
+  end.
+
+Lemma wsorted_snoc l : forall a b,
+  wsorted l -> (a <= b)%Z -> match rev l with [] => True | (_, h) :: _ => (h <= a)%Z end ->
+  wsorted (l ++ [(a, b)]).
+Proof.
+  induction l as [|[lo hi] l IH]; intros a b Hs Hab Hlast; cbn [app wsorted]; [tauto|].
+  cbn [wsorted] in Hs. destruct Hs as (H1 & H2 & H3).
+  split; [exact H1|]. split.
+  - destruct l as [|[lo2 hi2] l']; cbn [app]; [cbn [rev app] in Hlast; exact Hlast|exact H2].
+  - apply IH; [exact H3|exact Hab|].
+    cbn [rev] in Hlast. destruct (rev l) as [|[l0 h0] r0] eqn:Hr; [exact I|]. cbn [app] in Hlast. exact Hlast.
+Qed.
+
+Lemma rsorted_rev rp : rsorted rp -> wsorted (rev rp).
+Proof.
+  induction rp as [|[lo hi] tl IH]; cbn [rsorted rev]; [tauto|]. intros (H1 & H2 & H3).
+  apply wsorted_snoc; [exact (IH H3)|exact H1|]. rewrite rev_involutive. exact H2.
+Qed.
+
+Lemma wsorted_later lo hi ps l h : wsorted ((lo, hi) :: ps) -> In (l, h) ps -> (hi <= l)%Z.
+Proof.
+  revert lo hi. induction ps as [|[lo2 hi2] ps IH]; intros lo hi Hs Hin; [destruct Hin|].
+  cbn [wsorted] in Hs. destruct Hs as (Hle & Hlt & Hle2 & Hnext & Hs2).
+  destruct Hin as [Heq|Hin]; [inversion Heq; subst; exact Hlt|].
+  assert (H2 : (hi2 <= l)%Z) by (apply (IH lo2 hi2); [cbn [wsorted]; tauto|exact Hin]). lia.
+Qed.
+
+Lemma validate_range_wspec parts v :
+  wsorted parts -> parts <> [] -> (validate_range parts v = true <-> in_parts parts v).
+Proof.
+  induction parts as [|[lo hi] ps IH]; intros Hs Hne; [congruence|].
+  cbn [validate_range].
+  destruct (v <? lo)%Z eqn:Hlo.
+  - split; [discriminate|]. intros [l [h [Hin Hv]]]. exfalso.
+    destruct Hin as [Heq|Hin]; [inversion Heq; subst; lia|].
+    pose proof (wsorted_later _ _ _ _ _ Hs Hin) as Hlt. cbn [wsorted] in Hs. lia.
+  - destruct (v <=? hi)%Z eqn:Hhi.
+    + split; [|reflexivity]. intros _. exists lo, hi. split; [left; reflexivity|lia].
+    + destruct ps as [|p ps'].
+      * split; [discriminate|]. intros [l [h [[Heq|[]] Hv]]]. inversion Heq; subst. lia.
+      * assert (Hs2 : wsorted (p :: ps')) by (cbn [wsorted] in Hs; tauto).
+        rewrite (IH Hs2 ltac:(discriminate)). split.
+        -- intros [l [h [Hin Hv]]]. exists l, h. split; [right; exact Hin|exact Hv].
+        -- intros [l [h [Hin Hv]]]. destruct Hin as [Heq|Hin]; [inversion Heq; subst; lia|]. exists l, h. auto.
+Qed.
+
+Lemma wsorted_le ps l h : wsorted ps -> In (l, h) ps -> (l <= h)%Z.
+Proof.
+  induction ps as [|[lo hi] ps IH]; intros Hs Hin; [destruct Hin|]. cbn [wsorted] in Hs.
+  destruct Hin as [Heq|Hin]; [inversion Heq; subst; tauto|]. apply IH; tauto.
+Qed.
+
+Lemma bound_num_asc ty mx first prev e v len :
+  bound_num ty mx first prev e = Ok (v, len) -> first = true \/ asc_ok mx v prev = true.
+Proof.
+  unfold bound_num. destruct (value_syntax ty e) as [[l vc]|]; [|discriminate].
+  destruct (parse_bound ty vc) as [w|]; [|discriminate].
+  destruct first; [left; reflexivity|]. cbn [orb]. destruct (asc_ok mx w prev) eqn:Ha; [|discriminate].
+  intro H; inversion H; subst. right. exact Ha.
+Qed.
+
+Definition loop_invariant (rp : parts) (pd : nat) : Prop :=
+  (length rp = pd \/ length rp = S pd) /\ rsorted rp.
+
+Lemma loop_inv f : forall ty base rp pd re e ps pd',
+  loop_invariant rp pd -> loop f ty base rp pd re e = Ok (ps, pd') -> pd' = length ps /\ wsorted ps.
+Proof.
+  induction f as [|f IH]; intros ty base rp pd re e ps pd' [Hlen Hsort] H; [discriminate|].
+  cbn [loop] in H. destruct e as [|c rest].
+  - destruct re; [discriminate|].
+    destruct (is_nil rp || (pd =? length rp)%nat) eqn:Hc; [discriminate|]. inversion H; subst.
+    rewrite rev_length. split; [destruct rp; [discriminate|]; cbn [is_nil orb] in Hc; lia|].
+    apply rsorted_rev. exact Hsort.
+  - destruct (is_space c); [exact (IH _ _ _ _ _ _ _ _ (conj Hlen Hsort) H)|].
+    destruct (starts_with s_min (c :: rest)).
+    { destruct rp; [|discriminate]. unfold bound_kw in H. cbn [orb] in H.
+      refine (IH _ _ _ _ _ _ _ _ _ H). split; [cbn [length] in *; lia|]. cbn [rsorted]. lia. }
+    destruct (c =? 124).
+    { destruct (is_nil rp || re || (pd =? length rp)%nat) eqn:Hc; [discriminate|].
+      refine (IH _ _ _ _ _ _ _ _ _ H). split; [lia|exact Hsort]. }
+    destruct (starts_with s_dots (c :: rest)).
+    { destruct (is_nil rp || (length rp =? pd)%nat); [discriminate|]. exact (IH _ _ _ _ _ _ _ _ (conj Hlen Hsort) H). }
+    destruct (is_digit c || (c =? 45) || (c =? 43)).
+    { destruct re.
+      - destruct rp as [|[lo hi0] tl]; [discriminate|].
+        destruct (bound_num ty true false lo (c :: rest)) as [[v len]|e1] eqn:Hb; [|discriminate].
+        destruct (bound_num_asc _ _ _ _ _ _ _ Hb) as [Hf|Ha]; [discriminate|]. unfold asc_ok in Ha.
+        refine (IH _ _ _ _ _ _ _ _ _ H). split; [exact Hlen|]. cbn [rsorted] in *. split; [lia|tauto].
+      - destruct (negb (is_nil rp) && negb (length rp =? pd)%nat) eqn:Hc; [discriminate|].
+        destruct (bound_num ty false (pd =? 0)%nat (prev_max pd rp) (c :: rest)) as [[v len]|e1] eqn:Hb; [|discriminate].
+        refine (IH _ _ _ _ _ _ _ _ _ H). split.
+        + cbn [length]. destruct rp; cbn [is_nil negb andb length] in *; lia.
+        + cbn [rsorted]. split; [lia|]. split; [|exact Hsort].
+          destruct rp as [|[l h] tl]; [exact I|]. cbn [is_nil negb andb length] in Hc.
+          destruct (bound_num_asc _ _ _ _ _ _ _ Hb) as [Hf|Ha].
+          * cbn [length] in Hlen. lia.
+          * unfold asc_ok in Ha. assert (Hpd : pd = S (length tl)) by lia. subst pd. cbn [prev_max] in Ha. lia. }
+    destruct (starts_with s_max (c :: rest)); [|discriminate].
+    destruct (negb re && negb (is_nil rp) && negb (length rp =? pd)%nat) eqn:Hc; [discriminate|].
+    destruct (skip_space (skipn 3 (c :: rest))); [|discriminate].
+    destruct re.
+    + destruct rp as [|[lo hi0] tl]; [discriminate|]. unfold bound_kw in H. cbn [orb] in H. unfold asc_ok in H.
+      destruct (lo <=? kw_value ty base true)%Z eqn:Hle; [|discriminate].
+      refine (IH _ _ _ _ _ _ _ _ _ H). split; [exact Hlen|]. cbn [rsorted] in *. split; [lia|tauto].
+    + unfold bound_kw in H.
+      destruct ((pd =? 0)%nat || asc_ok true (kw_value ty base true) (prev_max pd rp)) eqn:Ha; [|discriminate].
+      refine (IH _ _ _ _ _ _ _ _ _ H). split.
+      * cbn [length]. destruct rp; cbn [is_nil negb andb length] in *; lia.
+      * cbn [rsorted]. split; [lia|]. split; [|exact Hsort].
+        destruct rp as [|[l h] tl]; [exact I|]. cbn [negb andb is_nil length] in Hc. unfold asc_ok in Ha.
+        cbn [length] in Hlen. assert (Hpd : pd = S (length tl)) by lia. subst pd. cbn [prev_max Nat.eqb orb] in Ha. lia.
+Qed.
+
+Lemma inv0 : loop_invariant [] 0.
+Proof. split; [left; reflexivity|exact I]. Qed.
+
+(* parts_done = number of parts: the check against the base covers every part and never indexes beyond the array *)
+Theorem compile_range_never_oob ty base text : compile_range ty base text <> Err E_OOB.
+Proof.
+  unfold compile_range.
+  destruct (loop (S (length text)) ty base [] 0 false text) as [[ps pd]|e] eqn:Hl.
+  - destruct (loop_inv _ _ _ _ _ _ _ _ _ inv0 Hl) as [Hpd _]. subst pd.
+    destruct base; [discriminate|]. destruct (check_base_rem (firstn (length ps) ps) (p :: base)); [|discriminate].
+    rewrite Nat.leb_refl. discriminate.
+  - intro H. inversion H; subst.
+    (* the parser itself never answers E_OOB *)
+    assert (Hno : forall f ty base rp pd re e, loop f ty base rp pd re e <> Err E_OOB).
+    { clear. induction f as [|f IH]; intros ty base rp pd re e; cbn [loop]; [discriminate|].
+      destruct e as [|c rest].
+      - destruct re; [discriminate|]. destruct (is_nil rp || (pd =? length rp)%nat); discriminate.
+      - destruct (is_space c); [apply IH|].
+        destruct (starts_with s_min (c :: rest)).
+        { destruct rp; [|discriminate]. unfold bound_kw. cbn [orb]. apply IH. }
+        destruct (c =? 124); [destruct (is_nil rp || re || (pd =? length rp)%nat); [discriminate|apply IH]|].
+        destruct (starts_with s_dots (c :: rest)); [destruct (is_nil rp || (length rp =? pd)%nat); [discriminate|apply IH]|].
+        assert (Hbn : forall mx first prev e0 e1, bound_num ty mx first prev e0 = Err e1 -> e1 <> E_OOB).
+        { intros mx first prev e0 e1. unfold bound_num. destruct (value_syntax ty e0) as [[len vc]|e2] eqn:Hv.
+          - destruct (parse_bound ty vc) as [v|e3] eqn:Hp.
+            + destruct (first || asc_ok mx v prev); intro H; inversion H; discriminate.
+            + intro H; inversion H; subst. unfold parse_bound in Hp.
+              assert (Hi : forall s lo hi e4, ly_parse_int s lo hi = Err e4 -> e4 <> E_OOB).
+              { intros s lo hi e4. unfold ly_parse_int. destruct s as [|c0 s']; [intro X; inversion X; discriminate|].
+                destruct (c0 =? 0); [intro X; inversion X; discriminate|].
+                destruct (strtoll10 (cstr (c0 :: s'))) as [| |i r0]; try (intro X; inversion X; discriminate).
+                destruct ((i <? lo)%Z || (hi <? i)%Z); [intro X; inversion X; discriminate|].
+                destruct (skip_space r0); intro X; inversion X; discriminate. }
+              assert (Hu : forall s hi e4, ly_parse_uint s hi = Err e4 -> e4 <> E_OOB).
+              { intros s hi e4. unfold ly_parse_uint. destruct s as [|c0 s']; [intro X; inversion X; discriminate|].
+                destruct (c0 =? 0); [intro X; inversion X; discriminate|].
+                destruct (strtoull10 (cstr (c0 :: s'))) as [| |u r0]; try (intro X; inversion X; discriminate).
+                destruct ((hi <? Z.of_N u)%Z || (negb (u =? 0) && (c0 =? 45))); [intro X; inversion X; discriminate|].
+                destruct (skip_space r0); intro X; inversion X; discriminate. }
+              destruct ty as [t|fd|]; [destruct (ity_signed t)| |]; eauto.
+          - intro H; inversion H; subst. unfold value_syntax in Hv. cbv zeta in Hv.
+            destruct (negb (is_digit (rd e0 0)) && negb (rd e0 0 =? 45) && negb (rd e0 0 =? 43)); [inversion Hv; discriminate|].
+            destruct ty as [t|fd|]; try discriminate. unfold dec_valcopy in Hv.
+            repeat match type of Hv with context [if ?c then _ else _] => destruct c end; inversion Hv; discriminate. }
+        destruct (is_digit c || (c =? 45) || (c =? 43)).
+        { destruct re.
+          - destruct rp as [|[lo hi0] tl]; [discriminate|].
+            destruct (bound_num ty true false lo (c :: rest)) as [[v len]|e1] eqn:Hb; [apply IH|].
+            intro X; inversion X; subst. exact (Hbn _ _ _ _ _ Hb eq_refl).
+          - destruct (negb (is_nil rp) && negb (length rp =? pd)%nat); [discriminate|].
+            destruct (bound_num ty false (pd =? 0)%nat (prev_max pd rp) (c :: rest)) as [[v len]|e1] eqn:Hb; [apply IH|].
+            intro X; inversion X; subst. exact (Hbn _ _ _ _ _ Hb eq_refl). }
+        destruct (starts_with s_max (c :: rest)); [|discriminate].
+        destruct (negb re && negb (is_nil rp) && negb (length rp =? pd)%nat); [discriminate|].
+        destruct (skip_space (skipn 3 (c :: rest))); [|discriminate].
+        destruct re.
+        + destruct rp as [|[lo hi0] tl]; [discriminate|]. unfold bound_kw. cbn [orb].
+          destruct (asc_ok true (kw_value ty base true) lo); [apply IH|discriminate].
+        + unfold bound_kw. destruct ((pd =? 0)%nat || asc_ok true (kw_value ty base true) (prev_max pd rp)); [apply IH|discriminate]. }
+    exact (Hno _ _ _ _ _ _ _ Hl).
+Qed.
+
+Theorem compile_range_wsorted ty base text r : compile_range ty base text = Ok r -> wsorted r /\ r <> [].
+Proof.
+  intro H. unfold compile_range in H.
+  destruct (loop (S (length text)) ty base [] 0 false text) as [[ps pd]|e] eqn:Hl; [|discriminate].
+  destruct (loop_inv _ _ _ _ _ _ _ _ _ inv0 Hl) as [Hpd Hs]. subst pd.
+  assert (Hr : r = ps).
+  { destruct base; [inversion H; reflexivity|].
+    destruct (check_base_rem (firstn (length ps) ps) (p :: base)); [|discriminate].
+    rewrite Nat.leb_refl in H. inversion H; reflexivity. }
+  subst r. split; [exact Hs|].
+  (* the end of the text is only accepted with parts_done <> COUNT, i.e. COUNT = parts_done + 1 >= 1 *)
+  intro Hnil. subst ps.
+  assert (Hne : forall f ty base rp pd re e pd', loop f ty base rp pd re e <> Ok ([], pd')).
+  { clear. induction f as [|f IH]; intros ty base rp pd re e pd'; cbn [loop]; [discriminate|].
+    destruct e as [|c rest].
+    - destruct re; [discriminate|]. destruct rp as [|p rp']; [discriminate|]. cbn [is_nil orb].
+      destruct (pd =? length (p :: rp'))%nat; [discriminate|]. intro X. inversion X as [[Hrev Hp]].
+      apply (f_equal (@length _)) in Hrev. cbn [rev] in Hrev. rewrite app_length in Hrev. cbn [length] in Hrev. lia.
+    - repeat match goal with
+             | |- context [if ?c then _ else _] => destruct c
+             | |- context [match ?x with _ => _ end] => destruct x
+             end; try discriminate; try apply IH. }
+  exact (Hne _ _ _ _ _ _ _ _ Hl).
+Qed.
+
+(* lyplg_type_validate_range decides membership on whatever the compiler accepted *)
+Theorem range_validate_agrees_any ty base text r v :
+  compile_range ty base text = Ok r -> (validate_range r v = true <-> in_parts r v).
+Proof.
+  intro H. destruct (compile_range_wsorted _ _ _ _ H) as [Hs Hne]. exact (validate_range_wspec r v Hs Hne).
+Qed.
+
+(* soundness of the check against the base without any order assumption *)
+Lemma check_base_sound ds : forall b b',
+  Forall (fun d => (fst d <= snd d)%Z) ds -> check_base_rem ds b = Some b' -> parts_inside ds b.
+Proof.
+  unfold parts_inside. induction ds as [|d ds IH]; intros b b' Hle H; [constructor|].
+  cbn [check_base_rem] in H. destruct (check_part d b) as [b1|] eqn:Hc; [|discriminate].
+  destruct (check_part_some d b b1 (Forall_inv Hle) Hc) as [Hin [dr [Hb _]]].
+  constructor; [exact Hin|].
+  eapply Forall_impl; [|exact (IH b1 b' (Forall_inv_tail Hle) H)].
+  intros d' (l & h & Hl & H1 & H2). exists l, h. split; [rewrite Hb; apply in_or_app; right; exact Hl|auto].
+Qed.
+
+(* NO accepted restriction, whatever its text, has a part outside the parts of its base *)
+Theorem range_no_widening ty base text r :
+  base <> [] -> compile_range ty base text = Ok r -> parts_inside r base /\ subset r base.
+Proof.
+  intros Hb H. destruct (compile_range_wsorted _ _ _ _ H) as [Hs _].
+  assert (Hin : parts_inside r base).
+  { unfold compile_range in H.
+    destruct (loop (S (length text)) ty base [] 0 false text) as [[ps pd]|e] eqn:Hl; [|discriminate].
+    destruct (loop_inv _ _ _ _ _ _ _ _ _ inv0 Hl) as [Hpd _]. subst pd.
+    destruct base as [|b0 base']; [congruence|].
+    destruct (check_base_rem (firstn (length ps) ps) (b0 :: base')) as [b'|] eqn:Hc; [|discriminate].
+    rewrite Nat.leb_refl in H. inversion H; subst r. rewrite firstn_all in Hc.
+    apply (check_base_sound ps (b0 :: base') b'); [|exact Hc].
+    rewrite Forall_forall. intros [l h] Hd. exact (wsorted_le _ _ _ Hs Hd). }
+  split; [exact Hin|exact (parts_inside_subset _ _ Hin)].
+Qed.
+
+(* along ANY chain that compiles, every value the last type accepts is accepted by the base the chain started from *)
+Theorem chain_never_widens ty rs : forall base eff,
+  compile_chain ty base rs = Ok eff -> forall v, denote eff v -> denote base v.
+Proof.
+  induction rs as [|[r|] rs IH]; intros base eff H v Hv; cbn [compile_chain] in H.
+  - inversion H; subst. exact Hv.
+  - destruct (compile_range ty base r) as [ps|e] eqn:Hr; [|discriminate].
+    pose proof (IH ps eff H v Hv) as Hps.
+    destruct (compile_range_wsorted _ _ _ _ Hr) as [_ Hne].
+    destruct base as [|b0 base']; [left; reflexivity|]. right.
+    destruct Hps as [Hn|Hin]; [congruence|].
+    exact (proj2 (range_no_widening ty (b0 :: base') r ps ltac:(discriminate) Hr) v Hin).
+  - exact (IH base eff H v Hv).
 Qed.
